@@ -55,6 +55,22 @@ CHECKS = {
             ">=66000 one-byte chunks (counter reaches the third nonce byte on both paths), nonce layout across the 64-bit range, frozen golden files.",
             "REF (OpenSSL-based, self-tested against RFC vectors and the cacophony Noise-X vector) is the meaning of 'documented format'; only two genuine 1.x artefacts exist.",
             "DESIGN.md §6 C06"),
+    "C07": ("model_checking", "E-GRAPH",
+            "explicit-state breadth-first search (stateright) over operation histories, each history executed on the real library/CLI; RNG-seam perturbation of every delivered byte; per-file nonce check",
+            "States are operation histories of length <=2 (quick) / <=3 (thorough) over six randomness-consuming operations with identical inputs (library and CLI); in every state the history "
+            "is executed and all fresh values (ephemeral, payload and file keys recovered by REF, salts, generated private keys) must be pairwise distinct and differ from given values. "
+            "Through the RNG seam every byte of the CSPRNG stream is perturbed: outputs are a deterministic function of the stream and each fresh field depends on >=32 stream positions. "
+            "Per file, for every read partition in tiny scope and short-read schedules at production size, record i opens under nonce i and under no other nonce 0..n.",
+            "getrandom quality trusted; CLI operations use the real CSPRNG (verdict re-checked once before reporting).",
+            "DESIGN.md §6 C07"),
+    "C08": ("exploration", "E-GRID",
+            "exhaustive product enumeration of identity pairs x plaintexts x partitions with pairwise differential comparison; byte-pattern scan; CLI product",
+            "All 16 ordered (sender, recipient) pairs x 3 plaintexts x up to 4 read partitions x 2 payload keys with one fixed ephemeral key: files that differ only in identities are compared "
+            "pairwise (identical magic, e, chunk headers and length; length == 132/36 + 32*records + |P|); every file is scanned for every party's key (raw, hex, keyring encoding, base64 in any "
+            "byte phase and both alphabets) and must be read back completely by REF; all four (ephemeral, ephemeral_public) option combinations; password mode; CLI for all 9 ordered pairs "
+            "of three long-named parties x 3 sizes x {-o, stdout}.",
+            "Identity values from a seed-derived alphabet; names >= 12 bytes so chance occurrences in ciphertext are negligible (< 2^-70).",
+            "DESIGN.md §6 C08"),
     "C10": ("fault_enumeration", "E-ENV",
             "exhaustive fault injection: every fault kind at every read/write/flush call index, on top of bounded short-I/O schedules; CLI-level real I/O failures",
             "For every explored run and every call index k, each fault (Interrupted/Other on read, Ok(0)/Interrupted/Other on write, "
@@ -70,6 +86,14 @@ CHECKS = {
             "is rejected or agrees with REF, without panic.",
             "One scrypt per point bounds the grid; HMAC-equivalent password pairs are a recorded known finding.",
             "DESIGN.md §6 C15"),
+    "C17": ("exploration", "E-GRID",
+            "exhaustive enumeration of line-token sequences, decorated lines, line-shape grid, tool-written names and key strings against a reference reading of the keyring format",
+            "Every sequence of <=6 (quick) / <=7 (thorough) lines over a 13-token alphabet, every sequence of <=3/4 decorated lines, a single-line shape grid (every ASCII length 0..140 followed by "
+            "multi-byte characters, in every line role), the serialize->parse round trip for every name of <=3 characters over a 9-character alphabet plus boundary lengths, and every "
+            "single-character substitution / checksum perturbation of encoded public keys: the real parser (compiled from the working tree) must never crash, must reject texts that "
+            "unambiguously violate a necessary condition of the statement, must accept the documented well-formed subset with exactly the written entries, and lookups must agree with REF.",
+            "Texts using constructs the statement leaves open (duplicate field in a section, field outside a section, junk, no section) are only checked for 'no crash'.",
+            "DESIGN.md §6 C17"),
     "C18": ("exploration", "E-GRID",
             "exhaustive enumeration of the scrypt parameter grid and axes against OpenSSL, through the library and through the exported C function with guard bytes",
             "Full product N in 2..2^9/2^10 x r 1..8 x p 1..4 x 8 output lengths, every axis swept alone (N to 2^15, r to 16, p to 8, dkLen 1..200), corner tuples, a 12x12 password/salt length grid "
@@ -84,6 +108,13 @@ CHECKS = {
             "64-bit range) is executed on the real functions and compared with OpenSSL; nothing is sampled.",
             "Data values come from seed-derived alphabets; OpenSSL libcrypto is trusted as the RFC reference; arithmetic is orion's.",
             "DESIGN.md §6 C19"),
+    "C20": ("model_checking", "E-GRAPH",
+            "explicit-state breadth-first search (stateright) over construct/clone/drop programs, each executed on the real containers under an inspecting allocator",
+            "States are programs of <=4 (quick) / <=5 (thorough) operations on 3 slots from {PrivateKey::try_from, PrivateKey::generate, PayloadKey::new, clone, drop, drop during panic unwinding, "
+            "pass to noise_encrypt} over two key values (one containing zero bytes). Every program is executed from scratch; the global allocator copies the 32 watched bytes of each instance at the "
+            "moment their heap block is deallocated: they must be all zero, one release per dropped instance, and live instances keep their bytes.",
+            "Stack copies left by moves and non-container temporaries are out of scope; observed in the release profile used by the harness.",
+            "DESIGN.md §6 C20"),
 }
 
 NOT_YET = {}
